@@ -155,7 +155,7 @@ template<int D> void run_pair(long id, std::vector<long> const& sa, std::vector<
 		try_alias("alias_self", [&] { return norm(A.arr()); });
 	} }
 	os << "]}\n";
-	std::cout << os.str();
+	std::cout << os.str() << std::flush;
 }
 
 int main(int argc, char** argv) {
